@@ -103,21 +103,29 @@ func (_this *Session) GetBuilderGeneratorForType(dstType reflect.Type) BuilderGe
 		return storedIterator.(BuilderGenerator)
 	}
 
+	simYield("bld:miss")
 	var wg sync.WaitGroup
 	var builderGenerator BuilderGenerator
 
 	wg.Add(1)
 	storedBuilderGenerator, loaded := _this.builderGenerators.LoadOrStore(dstType, BuilderGenerator(func(ctx *Context) Builder {
+		simYield("bld:ph-enter")
 		wg.Wait()
+		simYield("bld:ph-woke")
 		return builderGenerator(ctx)
 	}))
 	if loaded {
+		simYield("bld:lost")
 		return storedBuilderGenerator.(BuilderGenerator)
 	}
+	simYield("bld:installed")
 
 	builderGenerator = _this.defaultBuilderGeneratorForType(dstType)
+	simYield("bld:generated")
 	wg.Done()
+	simYield("bld:done")
 	_this.builderGenerators.Store(dstType, builderGenerator)
+	simYield("bld:stored")
 	return builderGenerator
 }
 
